@@ -54,6 +54,8 @@ def word_lambda_op(u, lam):
         return x is not None and x.get("k") == "ref" and i < len(params) and x["id"] == params[i]
     if e.get("k") == "binop" and len(params) == 2 and is_param(e["l"], 0) and is_param(e["r"], 1):
         return ("bin", e["op"])
+    if e.get("k") == "binop" and len(params) == 2 and e["op"] in ("|", "&", "^") and is_param(e["l"], 1) and is_param(e["r"], 0):
+        return ("bin", e["op"])     # the bitwise word operators are commutative
     if e.get("k") == "unop" and len(params) == 1 and is_param(e["e"], 0):
         return ("un", e["op"])
     return None
@@ -66,8 +68,17 @@ def transforms(u, fn):
         if qn == "std::transform":
             args = n.get("args", [])
             lam = T.unwrap(u, args[-1]) if args else None
+            if lam is not None and lam.get("k") == "construct" and lam.get("ctor") in ("copy", "move") and len(lam.get("args", [])) == 1:
+                lam = T.unwrap(u, lam["args"][0])     # the function object is passed by value
+            if lam is not None and lam.get("k") == "ref" and lam.get("dk") == "local":
+                # a named word lambda (`auto const xor_words{[](..){..}}; transform(..., xor_words)`) stands for its initialiser
+                inits = [v for v in F.walk(fn.get("body"), into_lambdas=False) if v.get("k") == "var" and v.get("id") == lam.get("id") and v.get("init") is not None]
+                if len(inits) == 1 and lam.get("id") in T.const_local_defs(u, fn):
+                    lam = T.unwrap(u, inits[0]["init"])
+                    if lam is not None and lam.get("k") == "construct" and len(lam.get("args", [])) == 1:
+                        lam = T.unwrap(u, lam["args"][0])
             op = word_lambda_op(u, lam) if lam is not None and lam.get("k") == "lambda" else None
-            out.append((n, op, [T.show(T.norm(u, a)) for a in args[:-1]]))
+            out.append((n, op, [T.show(T.snorm(u, fn, a)) for a in args[:-1]]))
     return out
 
 
@@ -273,7 +284,30 @@ def main(rep, tier, only):
             rets = [r for r in F.walk(fn.get("body"), into_lambdas=False) if r.get("k") == "return"]
             t = T.show(T.snorm(u, fn, rets[0]["e"])) if rets else ""
             ok = "r_a0.array()" in t
-            (rep.ok if ok else rep.fail)("MIRROR", key, F.primary_site(fn), F.describe(fn)[:160], **({"how": "hashes array()"} if ok else {"why": "hash does not fold the array that == compares (%s)" % t}))
+            how = "hashes array()"
+            if not ok and len(rets) == 1:
+                # the fold written out: `for (e : field.array()) acc = f(acc, g(e)); return acc;`
+                r0 = T.unwrap(u, rets[0]["e"])
+                while r0 is not None and r0.get("k") in ("cast", "icast", "construct") and (r0.get("e") is not None or len(r0.get("args", [])) == 1):
+                    r0 = T.unwrap(u, r0.get("e") if r0.get("e") is not None else r0["args"][0])
+                acc = r0.get("id") if r0 is not None and r0.get("k") == "ref" and r0.get("dk") == "local" else None
+                loops = [x for x in F.walk(fn.get("body"), into_lambdas=False) if x.get("k") in ("range_for", "for", "while", "do")]
+                if acc is not None and len(loops) == 1 and loops[0]["k"] == "range_for" and loops[0].get("var") is not None \
+                        and re.sub(r"\s", "", T.show(T.snorm(u, fn, loops[0].get("range")))) == "r_a0.array()":
+                    ev = loops[0]["var"]["id"]
+                    ups = [x for x in F.walk(loops[0].get("body"), into_lambdas=False) if x.get("k") in ("assign", "compound_assign") or (x.get("k") == "call" and x.get("opcall") in ("=", "+=", "^=", "|="))]
+                    def refs(n):
+                        return {m.get("id") for m in F.walk(n) if m.get("k") == "ref"}
+                    good = [x for x in ups if (T.unwrap(u, x.get("l") if x.get("l") is not None else x.get("recv")) or {}).get("id") == acc
+                            and ev in refs(x.get("r") if x.get("r") is not None else x.get("args"))
+                            and (x.get("k") == "compound_assign" or x.get("opcall") in ("+=", "^=", "|=") or acc in refs(x.get("r") if x.get("r") is not None else x.get("args")))]
+                    jumps = [x for x in F.walk(loops[0].get("body"), into_lambdas=False) if x.get("k") in ("break", "return", "continue", "goto", "if", "switch")]
+                    if good and len(good) == len(ups) and not jumps:
+                        ok, how = True, "loop over array() folding every word into the result"
+                if not ok and any("r_a0.array()" in T.show(T.norm(u, x)) for x in F.walk(fn.get("body")) if x.get("k") == "call"):
+                    rep.broken("C10 MIRROR %s at %s: hash reads array() in a form this rule does not follow (neither range::hash(array()) nor a plain fold loop)" % (key, F.primary_site(fn)))
+                    continue
+            (rep.ok if ok else rep.fail)("MIRROR", key, F.primary_site(fn), F.describe(fn)[:160], **({"how": how} if ok else {"why": "hash does not fold the array that == compares (%s)" % t}))
     # ---------------- null_array / construction
     for fn in db.fns(BF + "detail::null_array"):
         u = fn["_unit"]
